@@ -276,6 +276,52 @@ func c17Once(c *Ctx, get *ssa.Function) {
 	if n == 0 {
 		c.undecided("C17.once.constructor-callers", get, "call of c.new", nil, "not found")
 	}
+	// R2b: what c.new is: the caller's constructor itself, or a wrapper that
+	// waits for nothing shared between keys
+	c.L.Floor("C17.once.constructor-stored", 1)
+	for _, f := range c.P.Funcs("syncutil") {
+		core.EachInstr(f, func(in ssa.Instruction) {
+			st, ok := in.(*ssa.Store)
+			if !ok {
+				return
+			}
+			fa, ok := st.Addr.(*ssa.FieldAddr)
+			if !ok || core.NamedOf(fa.X.Type()) != "OnceConstructor" {
+				return
+			}
+			if _, isSig := st.Val.Type().Underlying().(*types.Signature); !isSig {
+				return
+			}
+			what := "the stored constructor is the caller's function"
+			switch v := st.Val.(type) {
+			case *ssa.Parameter:
+				c.check(true, "C17.once.constructor-stored", f, what, st, "stored as given")
+			case *ssa.MakeClosure:
+				blocking := ""
+				for _, fn := range core.WithClosures(v.Fn.(*ssa.Function)) {
+					core.EachInstr(fn, func(in ssa.Instruction) {
+						switch x := in.(type) {
+						case *ssa.Send, *ssa.Select:
+							blocking = "a channel operation"
+						case *ssa.UnOp:
+							if x.Op == token.ARROW {
+								blocking = "a channel receive"
+							}
+						case ssa.CallInstruction:
+							n := core.CalleeName(x.Common())
+							if strings.HasSuffix(n, ").Lock") || strings.HasSuffix(n, ").RLock") || strings.HasSuffix(n, ").Wait") || strings.HasSuffix(n, ".Acquire") {
+								blocking = "a call of " + n
+							}
+						}
+					})
+				}
+				c.check(blocking == "", "C17.once.constructor-stored", f, "the stored constructor is a wrapper that waits for nothing shared between keys", st,
+					"the wrapper contains "+blocking+": constructions of different keys are serialised, so a slow construction of one key blocks Get of another")
+			default:
+				c.undecided("C17.once.constructor-stored", f, what, st, "the stored value is neither the parameter nor a closure: "+core.Describe(st.Val))
+			}
+		})
+	}
 	// R3: no lock held where loaders / the constructor run
 	for _, fn := range []*ssa.Function{get, loader} {
 		li := core.Locksets(fn)
